@@ -1,6 +1,6 @@
 """C03 -- reported outcome is sound: success means nothing raised; failures never masked."""
 
-from ..absint import TRUE, heap_key, is_handle
+from ..absint import NONE, TRUE, heap_key, is_handle
 from . import casemodel as cm
 from .common import RUNTEST, TESTCASE
 
@@ -66,7 +66,8 @@ def check_success_guard(ctx, case):
     ctx.floor("R-SUCCESS-GUARD", 12, "stage outcome combinations")
 
 
-def check_forced(ctx, case):
+def check_forced(ctx, case, rule="R-EXPECT-FORCES"):
+    """(Shared with C07, where the rule is called R-FORCE-HONOURED.)"""
     Q = f"{TESTCASE}:TestCase.expectThat"
     M, MM = ("wobj", "matcher"), ("wobj", "mismatch")
     answers = {"matcher.match": [("val", MM)], "mismatch.get_details": [("val", ("kwdict", ()))], "mismatch.describe": [("val", ("const", "it differs"))]}
@@ -87,12 +88,12 @@ def check_forced(ctx, case):
                 problems.add("the later stages do not run after the failed expectation")
             if r.kind != "val":
                 problems.add(f"run() raises {r.value!r}")
-        ctx.check("R-EXPECT-FORCES", f"an expectThat mismatch in {where}: the stage goes on, the finished test is a failure", case.node, bool(runs) and not problems,
+        ctx.check(rule, f"an expectThat mismatch in {where}: the stage goes on, the finished test is a failure", case.node, bool(runs) and not problems,
                   "; ".join(sorted(problems)) or "no path", examined=len(runs), construct=f"{Q}::mismatch in {where}")
     # a matching expectThat changes nothing
-    d, runs = cm.run_case(ctx, _script({}, extra_test=[expect]), answers={"matcher.match": [("val", ("const", None))]})
+    d, runs = cm.run_case(ctx, _script({}, extra_test=[expect]), answers={"matcher.match": [("val", NONE)]})
     bad = [cm.outcomes(r) for r in runs if cm.outcomes(r) != ["addSuccess"] or r.kind != "val"]
-    ctx.check("R-EXPECT-FORCES", "an expectThat that matches leaves the test a success", case.node, bool(runs) and not bad, f"the outcomes are {bad}", examined=len(runs), construct=f"{Q}::match")
+    ctx.check(rule, "an expectThat that matches leaves the test a success", case.node, bool(runs) and not bad, f"the outcomes are {bad}", examined=len(runs), construct=f"{Q}::match")
     # force_failure set directly, alone and with the same / later stages raising soft exceptions
     for where, raising in (("test", {}), ("test", {"tearDown": "skip"}), ("test", {"cleanup": "xfail"}), ("test", {"tearDown": "error"}), ("setUp", {"setUp": "skip"}), ("setUp", {"setUp": "error"}),
                            ("test", {"test": "skip"}), ("cleanup", {})):
@@ -104,7 +105,7 @@ def check_forced(ctx, case):
                 problems.add(f"with force_failure set in {where} ({_w(raising)}) the outcomes are {ocs}; expected one that makes the run unsuccessful")
             if not raising and ocs != ["addFailure"]:
                 problems.add(f"the forced failure is reported as {ocs}; expected a failure")
-        ctx.check("R-EXPECT-FORCES", f"[force_failure set in {where}; {_w(raising)}] the finished test is unsuccessful", case.node, bool(runs) and not problems, "; ".join(sorted(problems)) or "no path",
+        ctx.check(rule, f"[force_failure set in {where}; {_w(raising)}] the finished test is unsuccessful", case.node, bool(runs) and not problems, "; ".join(sorted(problems)) or "no path",
                   examined=len(runs), construct=f"{RUNTEST}:RunTest._run_core::forced in {where}, {_w(raising)}")
 
 
